@@ -102,24 +102,23 @@ def run_boundary(m):
                    "comp_keys": comp, "comp_at": seen}]
 
 
-def run_det(case, opt):
-    """A fresh mesh per run; with opt["prior"] the mesh first goes through a run with those options."""
-    from mouette.processing.features import FeatureEdgeDetector
+def angle_sums(case):
+    """the angle sums _flag_corners works from (same evaluation order: vertex_to_faces, vertex_to_corner_in_face)"""
     from mouette.attributes.attr_corners import corner_angles
-    m = build(case)
-    if opt.get("prior"):
-        # the mesh has already been through a detector run with other options (it now carries the attributes
-        # "feature" and possibly "corners" of that run)
-        po = opt["prior"]
-        FeatureEdgeDetector(only_border=po["only_border"], flag_corners=po["flag_corners"],
-                            corner_order=po["corner_order"], compute_feature_graph=po["graph"], verbose=False).run(m)
-    det = FeatureEdgeDetector(only_border=opt["only_border"], flag_corners=opt["flag_corners"],
-                              corner_order=opt["corner_order"], compute_feature_graph=opt["graph"], verbose=False)
-    try:
-        det.run(m)
-    except Exception as ex:
-        return {"exc": "%s: %s" % (type(ex).__name__, str(ex)[:80])}
-    nv = len(m.vertices)
+    m2 = build(case)
+    angles = corner_angles(m2, persistent=False)
+    ang = []
+    for v in range(len(m2.vertices)):
+        a = 0.
+        for T in m2.connectivity.vertex_to_faces(v):
+            c = m2.connectivity.vertex_to_corner_in_face(v, T)
+            a += angles[c]
+        ang.append(fr(a))
+    return ang
+
+
+def observe(det, m, opt, ang):
+    """every public container of the detector after a run on mesh m"""
     out = {"fe": sorted(int(e) for e in det.feature_edges),
            "fv": sorted(int(v) for v in det.feature_vertices),
            "deg": sorted([int(k), int(det.feature_degrees[k])] for k in det.feature_degrees),
@@ -132,16 +131,6 @@ def run_det(case, opt):
         out["corners"] = None
     else:
         out["corners"] = sorted([int(k), int(det.corners[k])] for k in det.corners)
-    # the angle sums _flag_corners works from (same evaluation order: vertex_to_faces, vertex_to_corner_in_face)
-    m2 = build(case)
-    angles = corner_angles(m2, persistent=False)
-    ang = []
-    for v in range(nv):
-        a = 0.
-        for T in m2.connectivity.vertex_to_faces(v):
-            c = m2.connectivity.vertex_to_corner_in_face(v, T)
-            a += angles[c]
-        ang.append(fr(a))
     out["angle"] = ang
     if opt["graph"]:
         g = det._feature_graph
@@ -154,13 +143,61 @@ def run_det(case, opt):
     return out
 
 
+def make_det(opt):
+    from mouette.processing.features import FeatureEdgeDetector
+    return FeatureEdgeDetector(only_border=opt["only_border"], flag_corners=opt["flag_corners"],
+                               corner_order=opt["corner_order"], compute_feature_graph=opt["graph"], verbose=False)
+
+
+def run_det(case, opt, ang):
+    """A fresh mesh and a fresh detector per run; with opt["prior"] the mesh first goes through a run (of another
+    detector object) with those options."""
+    m = build(case)
+    if opt.get("prior"):
+        make_det(opt["prior"]).run(m)
+    det = make_det(opt)
+    try:
+        det.run(m)
+    except Exception as ex:
+        return {"exc": "%s: %s" % (type(ex).__name__, str(ex)[:80])}
+    return observe(det, m, opt, ang)
+
+
+def run_session(case, ang):
+    """ONE detector object re-used for several runs: on this case's mesh and on a second mesh, with the options
+    (public attributes of the detector) changed between runs. Every container is observed after each run."""
+    ses = case.get("session")
+    if not ses:
+        return None
+    meshes = [build(case), build(ses["other"]) if ses.get("other") else None]
+    angs = [ang, angle_sums(ses["other"]) if ses.get("other") else None]
+    out = {"other_tables": tables(meshes[1]) if meshes[1] is not None else None, "steps": []}
+    det = None
+    for st in ses["steps"]:
+        try:
+            if det is None:
+                det = make_det(st)
+            else:
+                det.only_border = st["only_border"]
+                det.flag_corners = st["flag_corners"]
+                det.corner_order = st["corner_order"]
+                det.compute_feature_graph = st["graph"]
+            det.run(meshes[st["on"]])
+            out["steps"].append(observe(det, meshes[st["on"]], st, angs[st["on"]]))
+        except Exception as ex:
+            out["steps"].append({"exc": "%s: %s" % (type(ex).__name__, str(ex)[:80])})
+    return out
+
+
 def run_case(case):
     m = build(case)
     res = {"tables": tables(m)}
     res["cycles"] = [[s, run_cycle(m, s)] for s in [None] + list(case["starts"])]
     res["all"] = run_all(m)
     res["boundary"] = run_boundary(m)
-    res["dets"] = [run_det(case, o) for o in case["dets"]]
+    ang = angle_sums(case) if (case["dets"] or case.get("session")) else None
+    res["dets"] = [run_det(case, o, ang) for o in case["dets"]]
+    res["session"] = run_session(case, ang)
     return res
 
 
